@@ -20,11 +20,13 @@ for pr in props:
         level = m.FORCE_LEVEL
     served.append(pid)
     tech = ('contract-based deductive verification: VCs generated from the ast of the real functions in /repo and '
-            'discharged by z3/cvc5' if level == 'proof' else
+            'discharged by z3/cvc5; the same contracts are also evaluated by run-time monitors on real calls '
+            '(CPython cross-check, bounded)' if level == 'proof' else
             'contracts on the real functions: deductive VCs (z3/cvc5) for the clauses listed as proved, runtime-checked '
-            'contracts over a bounded domain (labelled bounded) for the rest' if targets else
+            'contracts over a bounded domain (labelled bounded) for the rest; the proved contracts are also evaluated by '
+            'run-time monitors on real calls (CPython cross-check, bounded)' if targets else
             'runtime-checked property contracts on the real API over a bounded domain (bounded stand-in, not a proof); '
-            'deductive clauses pending')
+            'no function of this property is within reach of the verifier (DESIGN 13.5)')
     checks.append({
         'property_id': pid, 'quick_cmd': './check %s --tier quick' % pid, 'thorough_cmd': './check %s --tier thorough' % pid,
         'evidence_file': 'evidence/%s.json' % pid, 'replay_cmd_template': './check --replay {path}', 'engine': 'pyvc',
@@ -38,7 +40,8 @@ man['checks'] = checks
 man['not_applicable'] = na
 man['engines'][0]['serves_properties'] = served
 man['notes'] = ('Every check runs the deductive clauses of its property (pyvc: VCs from the ast of the real functions, z3/cvc5), '
-                'finite ground checks of module constants, the bounded stand-in (runtime contracts on the real code) and replays '
+                'vacuity probes, finite ground checks of module constants, the bounded stand-in (runtime contracts on the real code), '
+                'the CPython cross-check of the proved contracts (run-time monitors over a workload) and replays '
                 'the recorded known findings (KNOWN_FINDINGS.json). Exit codes: 0 held, 1 violation, 2 undecided only, 3 checker error.')
 json.dump(man, open('/verif/MANIFEST.json', 'w'), indent=1)
 print(len(checks), 'checks;', len(na), 'not applicable')
